@@ -8,6 +8,7 @@ require (
 	github.com/cespare/xxhash v1.1.0
 	go.uber.org/zap v1.28.0
 	google.golang.org/protobuf v1.36.11
+	storj.io/drpc v1.0.0
 )
 
 require (
@@ -22,6 +23,7 @@ require (
 	github.com/cespare/xxhash/v2 v2.3.0 // indirect
 	github.com/cheggaaa/mb/v3 v3.0.3 // indirect
 	github.com/davecgh/go-spew v1.1.1 // indirect
+	github.com/davidlazar/go-crypto v0.0.0-20200604182044-b73af7476f6c // indirect
 	github.com/decred/dcrd/dcrec/secp256k1/v4 v4.4.1 // indirect
 	github.com/disintegration/imaging v1.6.2 // indirect
 	github.com/dustin/go-humanize v1.0.1 // indirect
@@ -34,6 +36,7 @@ require (
 	github.com/google/uuid v1.6.0 // indirect
 	github.com/huandu/skiplist v1.2.1 // indirect
 	github.com/ipfs/go-cid v0.6.2 // indirect
+	github.com/jbenet/go-temp-err-catcher v0.1.0 // indirect
 	github.com/klauspost/cpuid/v2 v2.4.0 // indirect
 	github.com/libp2p/go-buffer-pool v0.1.0 // indirect
 	github.com/libp2p/go-libp2p v0.49.0 // indirect
@@ -74,7 +77,6 @@ require (
 	modernc.org/mathutil v1.7.1 // indirect
 	modernc.org/memory v1.11.0 // indirect
 	modernc.org/sqlite v1.37.1 // indirect
-	storj.io/drpc v1.0.0 // indirect
 )
 
 replace github.com/anyproto/any-sync => /repo
